@@ -96,7 +96,10 @@ impl<const D: usize> ToroidalSpace<D> {
         if !v_f64.is_finite() {
             return None;
         }
+        // `rem_euclid` returns `period` itself for tiny negative inputs (r + period rounds up);
+        // keep the result inside the half-open fundamental domain [0, period).
         let wrapped = v_f64.rem_euclid(period);
+        let wrapped = if wrapped >= period { 0.0 } else { wrapped };
         <T as NumCast>::from(wrapped)
     }
 }
@@ -115,7 +118,8 @@ impl<const D: usize> TopologicalSpace for ToroidalSpace<D> {
     fn canonicalize_point(&self, coords: &mut [f64]) {
         for (coord, &period) in coords.iter_mut().zip(self.domain.iter()) {
             if period.is_finite() && period > 0.0 {
-                *coord = coord.rem_euclid(period);
+                let wrapped = coord.rem_euclid(period);
+                *coord = if wrapped >= period { 0.0 } else { wrapped };
             }
         }
     }
